@@ -3,4 +3,4 @@
 From Coq Require Import Extraction ExtrOcamlBasic NArith ZArith.
 From V Require Import C17.Model.
 Extraction "c17_model.ml" init step run env_step env_ok all_on commit_fin head_spec expected head_ok
-  obs_of obs_spec_ok obs_never_ok obs_mono_ok N.of_nat Z.of_N.
+  obs_of obs_spec_ok obs_never_ok obs_mono_ok sys_trace fw_real fw_drop_removed decode canon_of N.of_nat Z.of_N.
